@@ -14,6 +14,7 @@ mod c10;
 mod c11;
 mod c12;
 mod c14;
+mod c15;
 mod c18;
 mod hist;
 mod tok;
@@ -38,6 +39,7 @@ fn main() {
         "C14" => c14::run_c14(&mut out, &mut rng, tier),
         "C11" => c11::run_c11(&mut out, &mut rng, tier),
         "C12" => c12::run_c12(&mut out, &mut rng, tier),
+        "C15" => c15::run_c15(&mut out, &mut rng, tier),
         "C18" => c18::run_c18(&mut out, &mut rng, tier),
         "C13" => c04::run_c13(&mut out, &mut rng, tier),
         "C05" => c05::run_c05(&mut out, &mut rng, tier),
